@@ -4,7 +4,7 @@ from facts import strip_generics, ty_head, op_local, op_place
 from engine import site
 import gate
 
-CONFIGS = ['prod']
+CONFIGS = ['prod', 'testutils']
 EXPLANATION = (
     'Static decision of necessary structural clauses of C02 on the MIR of every keyspace-actor handler that '
     'both writes storage and folds the replicated set (anchors found by role): '
@@ -106,6 +106,14 @@ def check(ctx):
     facts = ctx.facts('prod')
     # SEM: the five handlers of the keyspace actor, interpreted on abstract messages against every answer storage can give
     # (handlers_abs).  Subsumes the structural clauses O1-O5, which are evaluated only when a construct is not modelled.
+    # MSEM: the bundled in-memory backend records what the handlers hand it (reference key-value model; test_utils.rs is one of C02's anchors)
+    import memstore_abs
+    try:
+        tu = ctx.facts('testutils')
+    except Exception:
+        tu = None
+    if tu is not None:
+        memstore_abs.check_memstore(ctx, tu, 'C02.MSEM')
     import handlers_abs
     if handlers_abs.check_handlers(ctx, facts, 'C02.SEM'):
         gate.check_gate(ctx, facts, 'C02.G')
